@@ -1,6 +1,24 @@
 (** C04, part B — proofs about the receiver state machine (Model/Inbound.v). *)
-From LdkV Require Import Prim.U64 Gen.Consts Gen.ConstsC04 Model.Inbound.
+From LdkV Require Import Prim.U64 Prim.Rs2vLib Gen.Consts Gen.ConstsC04 Gen.InboundChecks Model.Inbound.
 Open Scope Z_scope.
+
+(** the comparisons regenerated from the Rust source (Gen/InboundChecks.v) are unfolded where a
+    proof needs to know what they say: if the source changes one of them, that proof fails *)
+Ltac checks := unfold mpp_complete_at_tick, mpp_already_complete, mpp_complete_on_arrival, claim_amount_mismatch in *;
+               cbn [unwrap_z unwrap_or] in *.
+
+(** [final_hop_underpaid]: without [accept_underpaying_htlcs] the part must carry at least the
+    sender-intended amount; with it, at least that amount less the fee the previous hop declares
+    to have skimmed *)
+Lemma underpaid_spec up intended value sk :
+  final_hop_underpaid up intended value sk = false <->
+  (up = false /\ intended <= value) \/
+  (up = true /\ intended <= sat_add 64 value (unwrap_or sk 0)).
+Proof.
+  unfold final_hop_underpaid. destruct up; cbn [negb andb orb].
+  - rewrite Z.ltb_ge. intuition discriminate.
+  - rewrite orb_false_r, Z.ltb_ge. intuition discriminate.
+Qed.
 
 (** * association lists *)
 Lemma get_ins_eq {A} k (v : A) m : get k (ins k v m) = Some v.
@@ -69,7 +87,7 @@ Qed.
 Lemma tick_key_preserving : key_preserving tick_payment.
 Proof.
   intros k v k' v' outs H. unfold tick_payment in H. destruct (py_parts v); [discriminate|].
-  destruct (f_total (py_fields v) <=? _); [injection H as <- _ _; reflexivity|].
+  destruct (mpp_complete_at_tick _ _); [injection H as <- _ _; reflexivity|].
   destruct (existsb _ _); [discriminate|injection H as <- _ _; reflexivity].
 Qed.
 
@@ -105,6 +123,7 @@ Proof.
     destruct (py_parts e) as [|p0 t] eqn:Ep.
     + left. cbn [snd]. intros pid [].
     + destruct expected as [ex|]; [|left; cbn [snd]; intros pid []].
+      checks. rewrite negb_involutive.
       destruct (valid && (amt =? ex)) eqn:Ev.
       * right. exists e. split; [reflexivity|]. cbn [snd]. rewrite Ep.
         apply andb_true_iff in Ev as [Ev _]. subst valid.
@@ -113,15 +132,16 @@ Proof.
 Qed.
 
 (** * rejected parts are failed back and never stored *)
-Lemma recv_reject s hash pid onion_cltv cltv value intended fl purpose auth min_cltv :
-  cltv < onion_cltv \/ cltv <= height s + HTLC_FAIL_BACK_BUFFER + 1 \/ value < intended \/ auth = false \/
+Lemma recv_reject s hash pid onion_cltv cltv value intended fl purpose auth min_cltv sk up :
+  cltv < onion_cltv \/ cltv <= height s + HTLC_FAIL_BACK_BUFFER + 1 \/
+  final_hop_underpaid up intended value sk = true \/ auth = false \/
   (exists d, min_cltv = Some d /\ cltv < height s + d) ->
-  exists r, step s (Recv hash pid onion_cltv cltv value intended fl purpose auth min_cltv) = (s, [OFailPart pid r]).
+  exists r, step s (Recv hash pid onion_cltv cltv value intended fl purpose auth min_cltv sk up) = (s, [OFailPart pid r]).
 Proof.
   intros Hrej. cbn [step]. unfold recv.
   destruct (Z.ltb_spec cltv onion_cltv); [eexists; reflexivity|].
   destruct (Z.leb_spec cltv (height s + HTLC_FAIL_BACK_BUFFER + 1)); [eexists; reflexivity|].
-  destruct (Z.ltb_spec value intended); [eexists; reflexivity|].
+  destruct (final_hop_underpaid up intended value sk) eqn:Eu; [eexists; reflexivity|].
   destruct auth; cbn [negb]; [|eexists; reflexivity].
   destruct Hrej as [Hr|[Hr|[Hr|[Hr|[d [-> Hr]]]]]]; try lia; try discriminate.
   destruct (Z.ltb_spec cltv (height s + d)); [eexists; reflexivity|lia].
@@ -138,7 +158,7 @@ Proof.
   intros Hne Hs [p [Hin Ht]]. unfold tick_payment. destruct (py_parts e) as [|p0 t] eqn:Ep; [contradiction|].
   assert (Hsum : sum_intended (map tick_part (p0 :: t)) = sum_intended (p0 :: t)).
   { unfold sum_intended. rewrite map_map. reflexivity. }
-  rewrite Hsum. destruct (Z.leb_spec (f_total (py_fields e)) (sum_intended (p0 :: t))); [lia|].
+  rewrite Hsum. checks. destruct (Z.leb_spec (f_total (py_fields e)) (sum_intended (p0 :: t))); [lia|].
   assert (Hex : existsb (fun q => MPP_TIMEOUT_TICKS <=? pt_ticks q) (map tick_part (p0 :: t)) = true).
   { apply existsb_exists. exists (tick_part p). split; [apply in_map; exact Hin|].
     cbn [tick_part pt_ticks]. apply Z.leb_le. exact Ht. }
@@ -179,10 +199,11 @@ Qed.
 
 Lemma claimable_only_if_complete s o hash A d :
   In (OClaimable hash A d) (snd (step s o)) ->
-  exists pid onion_cltv cltv value intended fl purpose min_cltv e',
-    o = Recv hash pid onion_cltv cltv value intended fl purpose true min_cltv /\
+  exists pid onion_cltv cltv value intended fl purpose min_cltv sk up e',
+    o = Recv hash pid onion_cltv cltv value intended fl purpose true min_cltv sk up /\
     (* the part passed every per-HTLC check *)
-    onion_cltv <= cltv /\ height s + HTLC_FAIL_BACK_BUFFER + 1 < cltv /\ intended <= value /\
+    onion_cltv <= cltv /\ height s + HTLC_FAIL_BACK_BUFFER + 1 < cltv /\
+    final_hop_underpaid up intended value sk = false /\
     (forall dd, min_cltv = Some dd -> height s + dd <= cltv) /\
     (* the set was incomplete before and is complete now *)
     sum_intended (match get hash (claimable s) with Some e => py_parts e | None => [] end)
@@ -197,11 +218,11 @@ Lemma claimable_only_if_complete s o hash A d :
     check_merge (py_fields e') fl = true /\ py_purpose e' = purpose /\
     (exists p, In p (py_parts e') /\ pt_id p = pid /\ pt_cltv p = cltv /\ pt_value p = value).
 Proof.
-  intros Hin. destruct o as [h pid oc cltv value intended fl purpose auth mc| |bh|ch known|fh].
+  intros Hin. destruct o as [h pid oc cltv value intended fl purpose auth mc sk up| |bh|ch known|fh].
   - cbn [step] in *. unfold recv in *.
     destruct (Z.ltb_spec cltv oc); [destruct Hin as [Hx|[]]; discriminate|].
     destruct (Z.leb_spec cltv (height s + HTLC_FAIL_BACK_BUFFER + 1)); [destruct Hin as [Hx|[]]; discriminate|].
-    destruct (Z.ltb_spec value intended); [destruct Hin as [Hx|[]]; discriminate|].
+    destruct (final_hop_underpaid up intended value sk) eqn:Eu; [destruct Hin as [Hx|[]]; discriminate|].
     destruct auth; cbn [negb] in *; [|destruct Hin as [Hx|[]]; discriminate].
     destruct (match mc with Some dd => cltv <? height s + dd | None => false end) eqn:Emc;
       [destruct Hin as [Hx|[]]; discriminate|].
@@ -210,7 +231,7 @@ Proof.
     destruct (get h (claimable s)) as [e|] eqn:Eg.
     + (* existing entry *)
       destruct (py_purpose e =? purpose) eqn:Ep; cbn [negb] in *; [|destruct Hin as [Hx|[]]; discriminate].
-      unfold check_incoming_mpp_part in *.
+      unfold check_incoming_mpp_part in *. checks.
       destruct (check_merge (py_fields e) fl) eqn:Em; cbn [negb] in *; [|destruct Hin as [Hx|[]]; discriminate].
       destruct (Z.leb_spec MAX_VALUE_MSAT (pt_intended new + sum_intended (py_parts e)));
         [destruct Hin as [Hx|[]]; discriminate|].
@@ -227,11 +248,11 @@ Proof.
         clear. induction (map pt_intended (py_parts e)) as [|x t IH]; cbn [fold_right]; lia. }
       assert (Hsv : sum_value parts' = sum_value (py_parts e ++ [new])).
       { unfold parts', sum_value. rewrite sum_sort_parts, map_map. reflexivity. }
-      exists pid, oc, cltv, value, intended, fl, purpose, mc,
+      exists pid, oc, cltv, value, intended, fl, purpose, mc, sk, up,
         {| py_purpose := py_purpose e; py_fields := py_fields e; py_parts := parts' |}.
       cbn [py_fields py_parts py_purpose claimable]. rewrite get_ins_eq, Eg.
       cbn [pt_intended new] in *.
-      split; [reflexivity|]. split; [lia|]. split; [lia|]. split; [lia|].
+      split; [reflexivity|]. split; [lia|]. split; [lia|]. split; [exact Eu|].
       split; [intros dd ->; apply Z.ltb_ge in Emc; exact Emc|].
       split; [lia|]. split; [reflexivity|]. split; [rewrite Hsi; lia|]. split; [rewrite Hsi; lia|].
       split; [reflexivity|]. split; [reflexivity|].
@@ -243,18 +264,18 @@ Proof.
       unfold parts'. apply (proj2 (in_sort_parts _ _)). apply in_map. apply in_or_app. right. left. reflexivity.
     + (* first part *)
       cbn [py_purpose py_fields py_parts] in *. rewrite Z.eqb_refl in *. cbn [negb] in *.
-      unfold check_incoming_mpp_part in *. cbn [sum_intended map sum fold_right] in *.
+      unfold check_incoming_mpp_part in *. checks. cbn [sum_intended map sum fold_right] in *.
       destruct (check_merge fl fl) eqn:Em; cbn [negb] in *; [|destruct Hin as [Hx|[]]; discriminate].
       destruct (Z.leb_spec MAX_VALUE_MSAT (pt_intended new + 0)); [destruct Hin as [Hx|[]]; discriminate|].
       destruct (Z.leb_spec (f_total fl) (pt_intended new + 0 - pt_intended new)); [destruct Hin as [Hx|[]]; discriminate|].
       destruct (Z.leb_spec (f_total fl) (pt_intended new + 0)); cbn [snd fst] in *; [|destruct Hin].
       destruct Hin as [Hin|[]]. injection Hin as <- <- <-.
-      exists pid, oc, cltv, value, intended, fl, purpose, mc,
+      exists pid, oc, cltv, value, intended, fl, purpose, mc, sk, up,
         {| py_purpose := purpose; py_fields := fl;
            py_parts := sort_parts (map (set_tvr (sum_value ([] ++ [new]))) ([] ++ [new])) |}.
       cbn [py_fields py_parts py_purpose claimable app map sort_parts fold_right insert_part]. rewrite get_ins_eq, Eg.
       cbn [sum_intended sum_value map sum fold_right set_tvr pt_intended pt_value new] in *.
-      split; [reflexivity|]. split; [lia|]. split; [lia|]. split; [lia|].
+      split; [reflexivity|]. split; [lia|]. split; [lia|]. split; [exact Eu|].
       split; [intros dd ->; apply Z.ltb_ge in Emc; exact Emc|].
       split; [lia|]. split; [reflexivity|]. split; [lia|]. split; [lia|].
       split; [reflexivity|]. split; [reflexivity|].
@@ -268,7 +289,7 @@ Proof.
       destruct (map_payments tick_payment t) as [m' outs2] eqn:Em'. injection Em as <- <-.
       apply in_app_or in Hin as [Hin|Hin]; [|eapply IH; [reflexivity|exact Hin]].
       destruct kv as [k e]. unfold tick_payment in Et. destruct (py_parts e); [injection Et as <- <-; destruct Hin|].
-      destruct (f_total (py_fields e) <=? _); [injection Et as <- <-; destruct Hin|].
+      destruct (mpp_complete_at_tick _ _); [injection Et as <- <-; destruct Hin|].
       destruct (existsb _ _); injection Et as <- <-; [|destruct Hin].
       nofp Hin.
   - (* block *) cbn [step] in Hin. destruct (map_payments (block_payment bh) (claimable s)) as [m outs] eqn:Em.
@@ -286,7 +307,7 @@ Proof.
     + destruct (claim_scan (py_parts e) None 0) as [[valid expected] amt].
       destruct (py_parts e) as [|p0 t]; [destruct Hin|].
       destruct expected; [|destruct Hin].
-      destruct (valid && (amt =? z)); cbn [snd] in Hin.
+      destruct (valid && _); cbn [snd] in Hin.
       * nofp Hin.
       * nofp Hin.
   - exfalso. cbn [step] in Hin. unfold fail_back in Hin. destruct (get fh (claimable s)); [|destruct Hin].
@@ -332,7 +353,7 @@ Definition quiet_for (hash d : Z) (o : op) : bool :=
   match o with
   | Tick => true
   | Block h => h <? d
-  | Recv _ _ _ _ _ _ _ _ _ _ => true
+  | Recv _ _ _ _ _ _ _ _ _ _ _ _ => true
   | Claim h _ => negb (h =? hash)
   | FailBack h => negb (h =? hash)
   end.
@@ -346,7 +367,7 @@ Lemma step_quiet s o hash A d e :
   get hash (claimable s) = Some e -> ready A d e -> quiet_for hash d o = true ->
   exists e', get hash (claimable (fst (step s o))) = Some e' /\ same_core e e'.
 Proof.
-  intros Hg Hr Hq. destruct o as [h pid oc cltv value intended fl purpose auth mc| |bh|ch known|fh]; cbn [step].
+  intros Hg Hr Hq. destruct o as [h pid oc cltv value intended fl purpose auth mc sk up| |bh|ch known|fh]; cbn [step].
   - (* a further HTLC *)
     unfold recv.
     repeat match goal with |- context [if ?b then (s, _) else _] => destruct b; [exists e; cbn [fst]; split; [exact Hg|apply same_core_refl]|] end.
@@ -355,7 +376,7 @@ Proof.
       assert (Hnone : check_incoming_mpp_part (py_parts e) (py_fields e)
                 {| pt_id := pid; pt_cltv := cltv; pt_value := value; pt_intended := intended; pt_ticks := 0;
                    pt_tvr := None; pt_secret := f_secret fl; pt_height := height s |} fl = None).
-      { unfold check_incoming_mpp_part. destruct (negb (check_merge (py_fields e) fl)); [reflexivity|].
+      { unfold check_incoming_mpp_part. checks. destruct (negb (check_merge (py_fields e) fl)); [reflexivity|].
         cbn [pt_intended]. destruct (MAX_VALUE_MSAT <=? intended + sum_intended (py_parts e)); [reflexivity|].
         destruct Hr as (_ & _ & _ & Ht). rewrite <- sum_intended_core in Ht.
         destruct (Z.leb_spec (f_total (py_fields e)) (intended + sum_intended (py_parts e) - intended)); [reflexivity|lia]. }
@@ -379,7 +400,7 @@ Proof.
       unfold tick_payment. rewrite Ep.
       assert (Hsum : sum_intended (map tick_part (p0 :: t)) = sum_intended (p0 :: t)).
       { unfold sum_intended. rewrite map_map. reflexivity. }
-      rewrite Hsum.
+      rewrite Hsum. checks.
       destruct (Z.leb_spec (f_total (py_fields e)) (sum_intended (p0 :: t))); [reflexivity|lia].
     + unfold same_core, e'. cbn [py_parts py_fields py_purpose]. rewrite Ep. repeat split. rewrite map_map. reflexivity.
   - (* a block below the deadline fails no part *)
@@ -407,7 +428,7 @@ Proof.
     destruct (claim_scan (py_parts e0) None 0) as [[valid expected] amt].
     destruct (py_parts e0); [exists e; split; [exact Hd|apply same_core_refl]|].
     destruct expected; [|exists e; split; [exact Hd|apply same_core_refl]].
-    destruct (valid && (amt =? z)); exists e; (split; [exact Hd|apply same_core_refl]).
+    destruct (valid && _); exists e; (split; [exact Hd|apply same_core_refl]).
   - cbn [quiet_for] in Hq. apply negb_true_iff, Z.eqb_neq in Hq. unfold fail_back.
     destruct (get fh (claimable s)) as [e0|]; [|exists e; split; [exact Hg|apply same_core_refl]].
     exists e. cbn [fst claimable]. rewrite get_del_neq by congruence. split; [exact Hg|apply same_core_refl].
@@ -455,7 +476,7 @@ Proof.
   rewrite Hcond.
   rewrite (claim_scan_ready A (py_parts e) None 0).
   - rewrite <- sum_value_core in Hs. destruct (py_parts e) as [|p0 t] eqn:Ep; [contradiction|].
-    rewrite Z.add_0_l, Hs, Z.eqb_refl. reflexivity.
+    checks. rewrite Z.add_0_l, Hs, Z.eqb_refl. reflexivity.
   - intros p Hp. specialize (Hall (core p) (in_map core _ _ Hp)). cbn [core] in Hall. tauto.
   - left. reflexivity.
 Qed.
@@ -478,7 +499,7 @@ Theorem claim_window s0 o0 hash A d ops known :
 Proof.
   intros Hin Hq. cbv zeta.
   destruct (claimable_only_if_complete s0 o0 hash A d Hin)
-    as (pid & oc & cltv & value & intended & fl & purpose & mc & e & Ho & _ & _ & _ & _ & _ & Hg & Htot & _ & HA & Hd & Htvr & _ & _ & Hex).
+    as (pid & oc & cltv & value & intended & fl & purpose & mc & sk & up & e & Ho & _ & _ & _ & _ & _ & Hg & Htot & _ & HA & Hd & Htvr & _ & _ & Hex).
   assert (Hr : ready A d e).
   { destruct Hex as [p0 [Hp0 _]]. split; [intros Hn; rewrite Hn in Hp0; destruct Hp0|].
     split; [|split].
@@ -535,15 +556,15 @@ Proof.
     pose proof (claim_scan_expected _ _ _ _ _ _ Es Hall (or_intror Hne)) as Hex.
     destruct (py_parts e) as [|p0 t] eqn:Ep; [contradiction|].
     destruct expected as [ex|]; [|contradiction].
-    destruct (valid && (amt =? ex)); cbn [snd].
+    destruct (valid && _); cbn [snd].
     + left. intros p Hp. right. apply in_map_iff. exists p. split; [reflexivity|exact Hp].
     + right. intros p Hp. eexists. apply in_map_iff. exists p. split; [reflexivity|exact Hp].
 Qed.
 
 Definition h2_fields : fields := {| f_secret := 7; f_total := 3000; f_meta := -1; f_even := [] |}.
 Definition h2_ops : list op :=
-  [ Recv 1 11 200 200 1000 1000 h2_fields 9 true None;     (* part A, cltv 200 *)
-    Recv 1 12 230 230 2000 2000 h2_fields 9 true None;     (* part B, cltv 230: PaymentClaimable, deadline 200 - HFB *)
+  [ Recv 1 11 200 200 1000 1000 h2_fields 9 true None None false;     (* part A, cltv 200 *)
+    Recv 1 12 230 230 2000 2000 h2_fields 9 true None None false;     (* part B, cltv 230: PaymentClaimable, deadline 200 - HFB *)
     Block (200 - HTLC_FAIL_BACK_BUFFER);                    (* the deadline: part A is failed back *)
     Claim 1 false ].                                        (* the user claims late *)
 
